@@ -1,5 +1,6 @@
 import ComposeVerif.Props.C05
 import ComposeVerif.Lemmas.ExtendsCycle
+import ComposeVerif.Lemmas.ExtendsWalk
 /-!
 # C05 — cycle detection: soundness and completeness of the error `Circular reference`
 
@@ -74,6 +75,26 @@ every cyclic one, and the ones it counts as flattening are exactly the `Flat` on
 theorem cyclic_flattenF_too_long (E : Env) (fuel : Nat) (S : KVs) (n : String) (hc : Cyclic E (S, n)) :
     flattenF E fuel S n = .err "flatten:chain-too-long" := flattenF_cyclic E fuel S n hc
 
+/-- **`Cyclic` is decidable by following the links**: with more fuel than there are tracker keys, the link walk
+`walkChain` (no merge, no tracker, no memo) is still going exactly when the chain runs into a cycle — pigeonhole over the
+finite set of `(mapping, name)` nodes.  The driver evaluates `walkChain` for every service of every `c05.apply` case; this
+is the classification the cycle oracle compares the real outcome with. -/
+theorem walkChain_long_iff_cyclic (E : Env) (S : KVs) (n : String) (fuel : Nat)
+    (hfuel : (keyUniverse E S).length + 1 ≤ fuel) :
+    walkChain E fuel S n = .long ↔ Cyclic E (S, n) :=
+  ⟨walkChain_long_cyclic E S n fuel hfuel, walkChain_cyclic E fuel S n⟩
+
+/-- the oracle's reading of a real `circular`: if the walk of no service is `long`, `ApplyExtends` does not report
+`circular` (contrapositive of `circular_sound` through the decision procedure) -/
+theorem no_long_walk_no_circular {E : Env} (hE : NoCircularEnv E) {order : List String} {dict S : KVs}
+    (hS : lookup "services" dict = some (.map S)) (hnn : NoNull S) (hfs : NoNullFS E)
+    (hmain : fileServices E.fs E.mainFile = none) (hord : Visits order S)
+    (hwalk : ∀ n, lookup n S ≠ none → walkChain E ((keyUniverse E S).length + 2) S n ≠ .long) :
+    applyExtendsOrd E order dict ≠ .err "circular" := by
+  intro h
+  obtain ⟨n, hn, hc⟩ := circular_sound hE hS hnn hfs hmain hord h
+  exact hwalk n ((hord n).mp hn) (walkChain_cyclic E _ S n hc)
+
 /-! ### non-vacuity -/
 
 /-- `NoCircularEnv`, `FuelFree` hold of the two-file example environment -/
@@ -97,6 +118,10 @@ example : ∀ n, lookup n exCyc ≠ none → (∃ v, Flat Neg.env exCyc n v) ∨
     · subst hp
       exact Or.inl ⟨_, Flat.leaf (svc := [("image", .str "i")]) (by simp [exCyc, Val.lookup]) (by simp [Val.lookup])⟩
     · simp [exCyc, Val.lookup, ha, hp] at hn
+
+/-- the link walk classifies the two services of the example -/
+example : walkChain Neg.env 5 exCyc "a" = .long ∧ walkChain Neg.env 5 exCyc "p" = .leaf := by
+  constructor <;> rfl
 
 /-- … and both visit orders report `circular` (computed) -/
 example : applyExtendsOrd Neg.env ["a", "p"] [("services", .map exCyc)] = .err "circular" ∧
